@@ -25,6 +25,7 @@
 #include "SM/WakePotentialMap.hpp"
 #include "IO/HDF5File.hpp"
 #include "IO/ProgramOptions.hpp"
+#include "VerifHooks.hpp"
 
 #include <chrono>
 #include <climits>
@@ -82,6 +83,7 @@ int main(int argc, char** argv)
     #if INOVESA_ENABLE_INTERRUPT == 1
     //Install signal handler for SIGINT
     signal(SIGINT, Display::SIGINT_handler);
+    VERIF_POINT("setup:handler_installed",0);
     #endif // INOVESA_ENABLE_INTERRUPT
 
     /*
@@ -104,6 +106,7 @@ int main(int argc, char** argv)
     #endif // INOVESA_USE_OPENCL
 
     std::string ofname = opts.getOutFile();
+    VERIF_POINT("setup:options_parsed",0);
 
     #if DEBUG != 1
     if (ofname.empty() && !opts.getForceRun()
@@ -141,6 +144,7 @@ int main(int argc, char** argv)
     }
 
     oclhptr_t oclh(nullptr);
+    VERIF_POINT("setup:display_made",0);
 
     #if INOVESA_USE_OPENCL == 1
     if (cldev > 0) {
@@ -355,6 +359,7 @@ int main(int argc, char** argv)
     uint32_t laststep=std::ceil(steps*rotations);
 
     std::string startdistfile = opts.getStartDistFile();
+    VERIF_POINT("setup:parameters_derived",0);
 
 
     /*
@@ -525,6 +530,7 @@ int main(int argc, char** argv)
     }
 
     // an initial renormalization might be applied
+    VERIF_POINT("setup:grid_created",0);
     if (renormalize >= 0) {
         grid_t1->updateXProjection();
 
@@ -533,6 +539,7 @@ int main(int argc, char** argv)
 
     auto grid_t2 = std::make_shared<PhaseSpace>(*grid_t1);
     auto grid_t3 = std::make_shared<PhaseSpace>(*grid_t1);
+    VERIF_POINT("setup:grids_copied",0);
 
     // find highest peak for display (and information in the log)
     meshdata_t maxval = std::numeric_limits<meshdata_t>::min();
@@ -668,6 +675,7 @@ int main(int argc, char** argv)
     }
 
     Display::printText("Building DriftMap with");
+    VERIF_POINT("setup:rf_map_built",0);
     for (std::size_t n=0; n<alpha.size(); n++) {
         sstream.str("");
         sstream << "... alpha" << n << "= " << alpha[n];
@@ -679,6 +687,7 @@ int main(int argc, char** argv)
                                         , oclh );
 
     // time constant for damping and diffusion
+    VERIF_POINT("setup:drift_map_built",0);
     const timeaxis_t  e1 = (t_damp > 0) ? 2.0/(fs*t_damp*steps) : 0;
 
     // SourceMap for damping and diffusion
@@ -714,6 +723,7 @@ int main(int argc, char** argv)
      */
 
     Display::printText("For beam dynamics computation:");
+    VERIF_POINT("setup:fp_map_built",0);
     std::shared_ptr<Impedance> wake_impedance
             = vfps::makeImpedance( (filling.size()>1)? spaced_bins : padded_bins
                                  , oclh
@@ -721,6 +731,7 @@ int main(int argc, char** argv)
                                  , s,xi,collimator_radius,impedance_file);
 
     Display::printText("For CSR computation:");
+    VERIF_POINT("setup:wake_impedance_made",0);
     std::shared_ptr<Impedance> rdtn_impedance
             = vfps::makeImpedance( padded_bins
                                  , oclh
@@ -728,6 +739,7 @@ int main(int argc, char** argv)
 
 
     // field for radiation (not for self-interaction)
+    VERIF_POINT("setup:rdtn_impedance_made",0);
     ElectricField rdtn_field( grid_t1,rdtn_impedance,bucketnumbers
                             , 0 // no spacing
                             , oclh
@@ -738,6 +750,7 @@ int main(int argc, char** argv)
      **************************************************************************/
 
     ElectricField* wake_field = nullptr;
+    VERIF_POINT("setup:rdtn_field_made",0);
 
     // (generic) source map, will be executed in the main loop
     SourceMap* wm = nullptr;
@@ -767,6 +780,7 @@ int main(int argc, char** argv)
      * actual beam dynamics may not be perfectly accurate.
      */
     std::vector<PhaseSpace::Position> trackme;
+    VERIF_POINT("setup:wake_map_built",0);
     if (  opts.getParticleTracking() != ""
        && opts.getParticleTracking() != "/dev/null" ) {
         try {
@@ -788,6 +802,7 @@ int main(int argc, char** argv)
     }
 
     // initialze the rest of the display elements
+    VERIF_POINT("setup:tracking_read",0);
     #if INOVESA_USE_OPENGL == 1
     if (display != nullptr) {
         try {
@@ -846,11 +861,14 @@ int main(int argc, char** argv)
       || isOfFileType(".hdf5",ofname) ) {
         opts.save(ofname+".cfg");
         Display::printText("Saved configuiration to \""+ofname+".cfg\".");
+        VERIF_POINT("setup:cfg_saved",0);
         try {
             hdf_file = new HDF5File(ofname,grid_t1, &rdtn_field, wake_impedance,
                                     trackme.size(), t_sync,f_rev);
             Display::printText("Will save results to \""+ofname+"\".");
+            VERIF_POINT("setup:h5_created",0);
             opts.save(hdf_file);
+            VERIF_POINT("setup:h5_params_saved",0);
             hdf_file->addParameterToGroup("/Info","CSRStrength",
                                           H5::PredType::IEEE_F64LE,&S_csr);
             hdf_file->addParameterToGroup("/Info","ShieldingParameter",
@@ -881,6 +899,7 @@ int main(int argc, char** argv)
 
 
     Display::printText("Starting the simulation.");
+    VERIF_POINT("setup:starting",0);
 
     // time between two status updates (in seconds)
     const auto updatetime = 2.0f;
@@ -901,6 +920,7 @@ int main(int argc, char** argv)
     // 2) the energy spread (variance in Y direction)
     grid_t1->updateYProjection();
     grid_t1->variance(1);
+    VERIF_POINT("setup:initial_moments",0);
 
     Display::printText(status_string(grid_t1,0,rotations),false);
 
@@ -914,10 +934,12 @@ int main(int argc, char** argv)
             // padded bunch and wake profiles
             wake_field->wakePotential();
             hdf_file->appendPadded(wake_field);
+            VERIF_POINT("setup:initial_padded_appended",0);
         }
         if (h5save == 0) {
             // phase space (if not saved anyways)
             hdf_file->append(*grid_t1,0,HDF5File::AppendType::PhaseSpace);
+            VERIF_POINT("setup:initial_ps_appended",0);
         }
     }
     #endif
@@ -940,15 +962,18 @@ int main(int argc, char** argv)
      * but can be used by time dependent variables.
      */
     uint32_t simulationstep = 0;
+    VERIF_POINT("setup:before_loop",0);
 
     /*
      * main simulation loop
      * (everything inside this loop will be run a multitude of times)
      */
     while (simulationstep<laststep && !Display::abort) {
+        VERIF_POINT("loop:top",simulationstep);
         if (wkm != nullptr) {
             // works on XProjection
             wkm->update();
+            VERIF_POINT("loop:wake_updated",simulationstep);
         }
         if (renormalize > 0 && simulationstep%renormalize == 0) {
             // works on XProjection
@@ -958,13 +983,18 @@ int main(int argc, char** argv)
             grid_t1->integrate();
         }
 
+        VERIF_POINT("loop:normalised",simulationstep);
         if (outstep > 0 && simulationstep%outstep == 0) {
 
             // works on XProjection
             grid_t1->integrate();
+            VERIF_POINT("out:integrated",simulationstep);
             grid_t1->variance(0);
+            VERIF_POINT("out:variance0",simulationstep);
             grid_t1->updateYProjection();
+            VERIF_POINT("out:yprojection",simulationstep);
             grid_t1->variance(1);
+            VERIF_POINT("out:variance1",simulationstep);
             #if INOVESA_USE_OPENCL == 1
             if (oclh) {
                 grid_t1->syncCLMem(OCLH::clCopyDirection::dev2cpu);
@@ -983,20 +1013,27 @@ int main(int argc, char** argv)
 
                 hdf_file->append(*grid_t1,
                         static_cast<double>(simulationstep)/steps, at);
+                        VERIF_POINT("out:ps_appended",simulationstep);
                 rdtn_field.updateCSR(fc);
+                VERIF_POINT("out:csr_updated",simulationstep);
                 hdf_file->append(&rdtn_field);
+                VERIF_POINT("out:csr_appended",simulationstep);
                 if (wkm != nullptr) {
                     hdf_file->append(wkm);
+                    VERIF_POINT("out:wake_appended",simulationstep);
                 }
                 hdf_file->appendTracks(trackme);
+                VERIF_POINT("out:tracks_appended",simulationstep);
 
                 if (drfm) {
                     hdf_file->appendRFKicks(drfm->getPastModulation());
+                    VERIF_POINT("out:rfkicks_appended",simulationstep);
                 }
             }
             #endif // INOVESA_USE_HDF5
             #if INOVESA_USE_HDF5 == 1 || INOVESA_USE_OPENGL == 1
             outstepnr++;
+            VERIF_POINT("out:counted",simulationstep);
             #endif
             #if INOVESA_USE_OPENGL == 1
             if (display != nullptr) {
@@ -1032,16 +1069,25 @@ int main(int argc, char** argv)
                                rotations),false,updatetime);
         }
         wm->apply();
+        VERIF_POINT("loop:wake_applied",simulationstep);
         wm->applyToAll(trackme);
+        VERIF_POINT("loop:wake_tracked",simulationstep);
         rfm->apply();
+        VERIF_POINT("loop:rf_applied",simulationstep);
         rfm->applyToAll(trackme);
+        VERIF_POINT("loop:rf_tracked",simulationstep);
         drm->apply();
+        VERIF_POINT("loop:drift_applied",simulationstep);
         drm->applyToAll(trackme);
+        VERIF_POINT("loop:drift_tracked",simulationstep);
         fpm->apply();
+        VERIF_POINT("loop:fp_applied",simulationstep);
         fpm->applyToAll(trackme);
+        VERIF_POINT("loop:fp_tracked",simulationstep);
 
         // udate for next time step
         grid_t1->updateXProjection();
+        VERIF_POINT("loop:xprojection",simulationstep);
 
         #if INOVESA_USE_OPENCL == 1
         if (oclh) {
@@ -1050,13 +1096,16 @@ int main(int argc, char** argv)
         #endif // INOVESA_USE_OPENCL
 
         simulationstep++;
+        VERIF_POINT("loopend:incremented",simulationstep);
     } // end of main simulation loop
 
     #if INOVESA_USE_HDF5 == 1
     // save final result
+    VERIF_POINT("final:begin",simulationstep);
     if (hdf_file != nullptr) {
         if (wkm != nullptr) {
             wkm->update();
+            VERIF_POINT("final:wake_updated",simulationstep);
         }
         /* Without renormalization at this point
          * the last time step might behave slightly different
@@ -1070,8 +1119,11 @@ int main(int argc, char** argv)
             grid_t1->integrate();
         }
         grid_t1->variance(0);
+        VERIF_POINT("final:variance0",simulationstep);
         grid_t1->updateYProjection();
+        VERIF_POINT("final:yprojection",simulationstep);
         grid_t1->variance(1);
+        VERIF_POINT("final:variance1",simulationstep);
         #if INOVESA_USE_OPENCL == 1
         if (oclh) {
             grid_t1->syncCLMem(OCLH::clCopyDirection::dev2cpu);
@@ -1084,18 +1136,25 @@ int main(int argc, char** argv)
         hdf_file->append(*grid_t1,
                          static_cast<double>(simulationstep)/steps,
                          HDF5File::AppendType::All);
+                         VERIF_POINT("final:ps_appended",simulationstep);
         rdtn_field.updateCSR(fc);
+        VERIF_POINT("final:csr_updated",simulationstep);
         hdf_file->append(&rdtn_field);
+        VERIF_POINT("final:csr_appended",simulationstep);
         if (wkm != nullptr) {
             hdf_file->append(wkm);
+            VERIF_POINT("final:wake_appended",simulationstep);
         }
         hdf_file->appendTracks(trackme);
+        VERIF_POINT("final:tracks_appended",simulationstep);
 
         if (drfm) {
             hdf_file->appendRFKicks(drfm->getPastModulation());
+            VERIF_POINT("final:rfkicks_appended",simulationstep);
         }
         if (wake_field != nullptr) {
             hdf_file->appendPadded(wake_field);
+            VERIF_POINT("final:padded_appended",simulationstep);
         }
     }
     #endif // INOVESA_USE_HDF5
@@ -1116,6 +1175,7 @@ int main(int argc, char** argv)
     delete fpm;
 
     // Print Aborted instead of Finished if it was aborted. Also for log file.
+    VERIF_POINT("final:before_message",simulationstep);
     if(Display::abort) {
         Display::printText("Aborted.");
     } else {
